@@ -126,9 +126,11 @@ static void scenario(const char *name, const char *cmd, int want_fd2, int efd_af
 static int at_point(int k, int want_fd2, const char *helper)
 {
     const char *av[] = { helper, "/dev/null", "t", "0.4", NULL };
-    int efd = -1, fd, status = 0, rc = 0, st, delivered;
+    int efd = -1, fd, status = 0, rc = 0, st, delivered, self = 0;
     void *arg = NULL;
     pid_t pid;
+    sigset_t pend;
+    struct timespec zero = { 0, 0 };
     char name[48];
     RcmdSigF sigf = execcmd_rcmd_ops.rcmd_signal;
     sh->ncalls = 0;
@@ -150,6 +152,14 @@ static int at_point(int k, int want_fd2, const char *helper)
         if (!want_fd2)
             efd = -1;
         rc = (*sigf) (efd, arg, SIGINT);
+        /* did the "forwarded" signal hit the sender (a signal to the group the child is still in: pdsh's own)? */
+        sigpending(&pend);
+        self = sigismember(&pend, SIGINT);
+        if (self) {
+            sigemptyset(&pend);
+            sigaddset(&pend, SIGINT);
+            sigtimedwait(&pend, NULL, &zero);
+        }
         kill(pid, SIGCONT);
     }
     if (pipecmd_wait((pipecmd_t) arg, &status) < 0)
@@ -158,7 +168,7 @@ static int at_point(int k, int want_fd2, const char *helper)
         /* sig_helper: exit 130 = its SIGINT handler ran; killed by SIGINT = the signal arrived before the helper existed */
         delivered = (WIFEXITED(status) && WEXITSTATUS(status) == 130) || (WIFSIGNALED(status) && WTERMSIG(status) == SIGINT);
         snprintf(name, sizeof name, "pt%d:%s%s", k, k <= MAXCALLS ? sh->name[k - 1] : "?", want_fd2 ? ":s" : "");
-        printf("%s delivered=%d sigf=%d wait=%d\n", name, delivered, rc, status);
+        printf("%s delivered=%d sigf=%d wait=%d self=%d\n", name, delivered, rc, status, self);
         fflush(stdout);
     }
     close(fd);
@@ -178,6 +188,10 @@ int main(int argc, char **argv)
     signal(SIGINT, SIG_DFL);
     sigemptyset(&none);
     sigprocmask(SIG_SETMASK, &none, NULL);
+    /* a process group of our own: a module that signals "the group of the child" before the child has left ours must
+     * not interrupt the check that started us */
+    if (setsid() < 0)
+        setpgid(0, 0);
     err_init("execsig");
     /* -s: stderr fd handed out and still open */
     scenario("sopt-open", "exec sleep 3", 1, 0);
